@@ -234,6 +234,18 @@ func selftest(verbose bool) error {
 		})
 		expect("plaincopy/"+tc.fn, len(cs) > 0, tc.bad)
 	}
+	for _, tc := range []struct {
+		fn  string
+		bad bool
+	}{{"ElemOk", false}, {"ElemBad", true}} {
+		f := u.Func(fx, tc.fn)
+		if f == nil {
+			return fmt.Errorf("fixture %s missing", tc.fn)
+		}
+		dec := map[*types.Named]bool{}
+		decodedStructs(u.Named(fx, "envDoc"), dec, 0)
+		expect("decoded-elem/"+tc.fn, len(nullableElementDerefs(f, dec)) > 0, tc.bad)
+	}
 	if len(fails) > 0 {
 		return fmt.Errorf("%s", strings.Join(fails, "; "))
 	}
